@@ -335,3 +335,39 @@ def ordering(ctx):
         ctx.prove(f"{tag}-sorted-by-attributes-and-directions", I, z3.Or(*unsorted) if unsorted else FALSE, vars=vars_, replay=replay,
                   desc="consecutive results are ordered lexicographically by the requested attributes, each in its own direction; equal keys keep store order")
     ctx.bound("three objects with symbolic ordering keys (stationType 0..255, generationDeltaTime 0..65535); one or two order tuples, every direction combination")
+
+
+# ---------------------------------------------------------------------------------------------- Q5 the store a request is answered from
+@vc("C13", "Q5-insert-keeps-the-stored-objects")
+def insert_keeps(ctx):
+    """DictionaryDataBase.insert from an arbitrary store (objects under arbitrary distinct ids below the allocator, as any history of inserts and removals
+    leaves it): the new object is stored under a fresh id and every object stored before is still there - 'exactly those stored objects' presupposes that
+    storing one object never replaces another"""
+    h = Ldm(body=body)
+    I = h.I
+    new = Rec(I, "new", body)
+    rid = I.call_function(DictionaryDataBase.insert, [h.db, new.d])
+    exc = cond_or(c for c, _ in I.raises)
+    vars_ = h.vars()
+    vars_.update(new.vars())
+
+    def replay(vals):
+        db, maint, svc, if3, if4 = h.real(vals)
+        import copy
+        before = copy.deepcopy(db.database)
+        rec = new.concrete(vals)
+        got = db.insert(rec)
+        bad = [f"object stored under id {k} was replaced / dropped" for k, v in before.items() if db.database.get(k) != v or got == k]
+        if db.database.get(got) != rec:
+            bad.append(f"the new object is not stored under the returned id {got}")
+        return bool(bad), f"insert into a store with ids {sorted(before)} (allocator {vals['next_id']}) returned {got}: " + ("; ".join(bad) or "nothing lost")
+    ctx.witness("insert-reach-store-with-a-gap", I, z3.And(z3.Not(exc), h.present[1], z3.Not(h.present[0]), h.keys[1] == 1, h.next_id == 2), vars=vars_,
+                validate=lambda v: not replay(v)[0])
+    ctx.prove("insert-no-exception", I, exc, vars=vars_, replay=replay)
+    ctx.prove("insert-keeps-every-stored-object", I, z3.Or(*[z3.Not(h.record_unchanged(i)) for i in range(len(h.recs))]), vars=vars_, replay=replay,
+              desc="every object stored before the insert is still stored under its id with identical content (also after removals left gaps below the allocator)")
+    f, v = h.lookup(I.num(rid))
+    ctx.prove("insert-stores-the-new-object-under-a-fresh-id", I, z3.Or(z3.Not(f), z3.Not(I._lb(I.equal(v, new.d))),
+                                                                        *[z3.And(h.present[i], I.num(rid) == h.keys[i]) for i in range(len(h.recs))]), vars=vars_, replay=replay)
+    ctx.bound("store of up to two objects under arbitrary distinct ids below the allocator (representation invariant of C12); one insert")
+
